@@ -23,7 +23,7 @@ WRAP = ["-Wl,--wrap=malloc,--wrap=calloc,--wrap=realloc,--wrap=free"]
 
 
 def init_state(level, n):
-    return {"blocks": ["never"] * n, "level": level, "table": []}
+    return {"blocks": ["never"] * n, "level": level, "sizes": [0] * n, "table": []}
 
 
 def argclass(e):
@@ -52,15 +52,18 @@ def argclass(e):
     if op in ("malloc", "calloc", "strdup"):
         parts.append(tcls(a[0]))
         size = a[1] if op == "malloc" else (a[1] * a[2] if op == "calloc" else a[1] + 1)
-        parts.append("size=0" if size == 0 else "size>0")
-        parts.append("file>20" if len(a[-2]) > 20 else "file<=20")
+        parts.append("size=refused" if a[1] < 0 else ("size=0" if size == 0 else "size>0"))
+        fname = a[3] if op == "calloc" else a[2]
+        parts.append("file>20" if len(fname) > 20 else "file<=20")
+        if op == "strdup" and len(a) > 4 and a[4]:
+            parts.append("source=tracked-block" + ("+%d" % a[5] if a[5] else ""))
     elif op == "realloc":
         p, size, t = a[0], a[1], a[2]
         parts.append(pcls(p))
-        parts.append("size=0" if size == 0 else "size>0")
+        parts.append("size=refused" if size < 0 else ("size=0" if size == 0 else "size>0"))
         if t:
             parts.append("inplace" if t == p else ("moved/" + tcls(t)))
-        parts.append("file>20" if len(a[-2]) > 20 else "file<=20")
+        parts.append("file>20" if len(a[3]) > 20 else "file<=20")
     elif op == "free":
         parts.append(pcls(a[0]))
     return ",".join(parts)
@@ -92,8 +95,8 @@ def mechanism(ctx):
     exe5 = harness(ctx, 5)
     quick = ctx.tier == "quick"
     # (cfg, pool size, runtime levels on the default build, runtime levels on the DEBUG=5 build)
-    runs = [("MemTrack_quick.cfg", 3, [4, 5], [5])] if quick else [
-        ("MemTrack_quick.cfg", 3, [4, 5], [4, 5]), ("MemTrack_thorough.cfg", 3, [4, 5], [5]),
+    runs = [("MemTrack_quick.cfg", 3, [0, 1, 3, 4, 5], [5])] if quick else [
+        ("MemTrack_quick.cfg", 3, [0, 1, 3, 4, 5], [0, 4, 5]), ("MemTrack_thorough.cfg", 3, [4, 5], [5]),
         ("MemTrack_levels.cfg", 3, [0, 6], [6]), ("MemTrack_pool4.cfg", 4, [5], [5])]
     walks = (300, 40) if quick else (3000, 80)
     ref = None
@@ -134,6 +137,8 @@ def reference_nullness(g):
     ref = {}
     for _, _, e in g.edges:
         op, a = e["op"], e["args"]
+        if op in ("malloc", "calloc", "realloc") and a[1] < 0:
+            continue                    # refused requests are not one of the macro probe's shapes
         if op == "malloc":
             k = "malloc_0" if a[1] == 0 else "malloc_n"
         elif op == "calloc":
